@@ -218,12 +218,131 @@ BENIGN = {
 
 
 def apply_edits(root, edits):
-    for (f, old, new) in edits:
+    for e in edits:
+        f, old, new = e[0], e[1], e[2]
+        every = len(e) > 3 and e[3] == 'all'
         p = os.path.join(root, f)
         s = open(p).read()
-        if s.count(old) != 1:
+        if every:
+            if s.count(old) < 1:
+                raise RuntimeError('%s: pattern not found: %r' % (f, old[:60]))
+        elif s.count(old) != 1:
             raise RuntimeError('%s: pattern occurs %d times: %r' % (f, s.count(old), old[:60]))
         open(p, 'w').write(s.replace(old, new))
+
+
+# second benign patch: renames of every private function a rule could be tempted to anchor on, and structural rewrites
+BENIGN['benign_refactor'] = [
+    ('src/portfolio/bookkeeping/delta_list.rs', 'delta_for_tx', 'ledger_step_for_tx', 'all'),
+    ('src/portfolio/bookkeeping/delta_list.rs', 'get_delta_superficial_loss_info', 'sfl_info_for_delta', 'all'),
+    ('src/portfolio/bookkeeping/superficial_loss.rs', 'get_superficial_loss_info', 'scan_sfl_window', 'all'),
+    ('src/portfolio/io/tx_csv.rs', 'csvtx_from_csv_values', 'csvtx_from_values', 'all'),
+    ('src/fx/io/rate_loader.rs', 'get_exact_usd_cad_rate', 'exact_rate_for_day', 'all'),
+    ('src/fx/io/rates_cache.rs', 'commit_rates_csv_file', 'finish_rates_file', 'all'),
+    ('src/fx/io/rates_cache.rs', 'rates_csv_file_path', 'live_rates_path', 'all'),
+    ('src/peripheral/excel.rs', 'read_sheet_header', 'header_index_map', 'all'),
+    # Tx's own ordering spelled out as a comparator
+    ('src/app/approot.rs', '    all_txs.sort();\n', '    all_txs.sort_by(|a, b| a.cmp(b));\n'),
+    # explicit into_iter on the per-security map
+    ('src/app/approot.rs', '    for (sec, mut sec_txs) in txs_by_sec {', '    for (sec, mut sec_txs) in txs_by_sec.into_iter() {'),
+    # loop instead of iterator chain for the header map (same indices)
+    ('src/peripheral/excel.rs', '    Ok(HashMap::from_iter(first_row.into_iter().enumerate().filter_map(\n        |(i, cell)| match cell {\n            DataType::String(s) => Some((s.clone(), i)),\n            _ => None,\n        },\n    )))',
+     '    let mut map = HashMap::new();\n    for (i, cell) in first_row.iter().enumerate() {\n        if let DataType::String(s) = cell {\n            map.insert(s.clone(), i);\n        }\n    }\n    Ok(map)'),
+    # temp file opened with OpenOptions instead of File::create
+    ('src/fx/io/rates_cache.rs', '        File::create(tmp_file_path).map_err(|e| e.to_string())', '        File::options()\n            .write(true)\n            .create(true)\n            .truncate(true)\n            .open(tmp_file_path)\n            .map_err(|e| e.to_string())'),
+    # two writer arms swapped
+    ('src/portfolio/io/tx_csv.rs', '                CsvCol::SECURITY => tx.security.clone().unwrap_or_else(empty),\n', ''),
+    ('src/portfolio/io/tx_csv.rs', '                CsvCol::MEMO => tx.memo.clone().unwrap_or_else(empty),\n', '                CsvCol::MEMO => tx.memo.clone().unwrap_or_else(empty),\n                CsvCol::SECURITY => tx.security.clone().unwrap_or_else(empty),\n'),
+    # cache-acceptance conditions in the other order
+    ('src/fx/io/rate_loader.rs', '                        if rates_are_fresh {\n                            return Ok(rates_map);\n                        } else {\n                            // Check for cache invalidation.\n                            if rates_map.contains_key(target_date) {\n                                return Ok(rates_map);\n                            }\n                        }',
+     '                        if rates_map.contains_key(target_date) || rates_are_fresh {\n                            return Ok(rates_map);\n                        }'),
+    # commission term first in the purchase cost
+    ('src/portfolio/bookkeeping/delta_list.rs', '                new_acb_total = Some(old_acb + total_price);', '                new_acb_total = Some(total_price + old_acb);'),
+    # explicit copy of the cost base in the split arm (no change)
+    ('src/portfolio/bookkeeping/delta_list.rs', '            let share_diff = *new_share_balance - *pre_tx_status.share_balance;', '            new_acb_total = pre_tx_status.total_acb;\n            let share_diff = *new_share_balance - *pre_tx_status.share_balance;'),
+]
+
+
+# third benign patch: helper extraction, inlining, renames of fields / consts / private async fns, reordered output loops
+BENIGN['benign_restructure'] = [
+    # per-security body extracted into a helper
+    ('src/app/approot.rs', """    for (sec, mut sec_txs) in txs_by_sec {
+        // An invalid split layout is an error of this security only. Report it
+        // against the security, and keep processing the others.
+        if let Err(e) =
+            crate::portfolio::splits::replace_global_security_splits(&mut sec_txs)
+        {
+            delta_results.insert(
+                sec,
+                DeltaListResult(Err(TxDeltaListError::new(Vec::new(), e))),
+            );
+            continue;
+        }
+
+        let sec_init_status =
+            all_init_status.get(&sec).map(|o| std::rc::Rc::new(o.clone()));
+
+        let deltas_res = txs_to_delta_list(&sec_txs, sec_init_status);
+        delta_results.insert(sec, deltas_res);
+    }
+""", """    for (sec, sec_txs) in txs_by_sec {
+        let deltas_res = deltas_for_security(&sec, sec_txs, &all_init_status);
+        delta_results.insert(sec, deltas_res);
+    }
+"""),
+    ('src/app/approot.rs', "struct AllCumulativeCapitalGains {", """fn deltas_for_security(
+    sec: &Security,
+    mut sec_txs: Vec<Tx>,
+    all_init_status: &HashMap<Security, PortfolioSecurityStatus>,
+) -> DeltaListResult {
+    if let Err(e) =
+        crate::portfolio::splits::replace_global_security_splits(&mut sec_txs)
+    {
+        return DeltaListResult(Err(TxDeltaListError::new(Vec::new(), e)));
+    }
+    let sec_init_status =
+        all_init_status.get(sec).map(|o| std::rc::Rc::new(o.clone()));
+    txs_to_delta_list(&sec_txs, sec_init_status)
+}
+
+struct AllCumulativeCapitalGains {"""),
+    # commit helper inlined into write_rates
+    ('src/fx/io/rates_cache.rs', "            let r = commit_rates_csv_file(csv_w, &self.dir_path, year);", """            let r = (|| -> Result<(), SError> {
+                let file = csv_w.into_inner().map_err(|e| e.to_string())?;
+                file.sync_all().map_err(|e| e.to_string())?;
+                std::fs::rename(
+                    rates_csv_tmp_file_path(&self.dir_path, year),
+                    rates_csv_file_path(&self.dir_path, year),
+                )
+                .map_err(|e| e.to_string())
+            })();"""),
+    ('src/fx/io/rates_cache.rs', """    /// Flushes and syncs the temporary file, then atomically moves it over the
+    /// live cache file.
+    fn commit_rates_csv_file(
+        csv_w: csv::Writer<File>,
+        dir_path: &std::path::Path,
+        year: u32,
+    ) -> Result<(), SError> {
+        let file = csv_w.into_inner().map_err(|e| e.to_string())?;
+        file.sync_all().map_err(|e| e.to_string())?;
+        std::fs::rename(
+            rates_csv_tmp_file_path(dir_path, year),
+            rates_csv_file_path(dir_path, year),
+        )
+        .map_err(|e| e.to_string())
+    }
+""", ""),
+    # renames: formatter method and flag field, tolerance constant, private async functions, reader field
+    ('src/portfolio/render.rs', 'curr_str', 'currency_text', 'all'),
+    ('src/portfolio/render.rs', 'print_all_decimals', 'full_precision', 'all'),
+    ('src/portfolio/bookkeeping/delta_list.rs', 'MAX_DIFF', 'SFL_TOLERANCE', 'all'),
+    ('src/fx/io/rate_loader.rs', 'find_usd_cad_preceding_relevant_spot_rate', 'look_back_for_rate', 'all'),
+    ('src/fx/io/rate_loader.rs', 'fetch_usd_cad_rates_for_date_year', 'rates_for_year_of', 'all'),
+    ('src/peripheral/excel.rs', 'col_name_to_index', 'columns', 'all'),
+    ('src/portfolio/io/tx_csv.rs', 'optional_cols_in_use', 'used_optional', 'all'),
+    # sorted key set via BTreeSet
+    ('src/app/approot.rs', '    let mut secs: Vec<Security> = sec_render_tables.keys().cloned().collect();\n    secs.sort();\n', '    let secs: std::collections::BTreeSet<Security> = sec_render_tables.keys().cloned().collect();\n'),
+]
 
 
 def make_patch(edits):
